@@ -29,7 +29,11 @@ THEOREMS = ['Tbox.C02.C02_callbacks_legit', 'Tbox.C02.C02_never_early', 'Tbox.C0
             # round 4: whole-execution simulation wide machine -> abstract model; the loop's exit timer
             'Tbox.C02.C02_wide_exec_simulates', 'Tbox.C02.C02_wide_exec_same_trace', 'Tbox.C02.C02_wide_exec_callbacks_legit',
             'Tbox.C02.C02_wide_exec_deadlines_exact', 'Tbox.C02.C02_wide_exec_no_skip', 'Tbox.C02.Wide.sim_init', 'Tbox.C02.Wide.sim_step',
-            'Tbox.C02.Wide.sim_exec', 'Tbox.C02.C02_exit_arms_fresh', 'Tbox.C02.C02_exit_zero_disarms', 'Tbox.C02.C02_exit_not_early']
+            'Tbox.C02.Wide.sim_exec', 'Tbox.C02.C02_exit_arms_fresh', 'Tbox.C02.C02_exit_zero_disarms', 'Tbox.C02.C02_exit_not_early',
+            # round 5: only the last exitLoop counts; cleanup() then reuse; negative exit waits
+            'Tbox.C02.C02_exit_last_call_wins', 'Tbox.C02.C02_exit_last_call_wins_history', 'Tbox.C02.C02_exit_zero_final',
+            'Tbox.C02.exec_XT', 'Tbox.C02.C02_pool_cleanup_fresh', 'Tbox.C02.C02_pool_first_after_cleanup',
+            'Tbox.C02.C02_pool_reuse_after_cleanup', 'Tbox.C02.C02_wide_exit_negative', 'Tbox.C02.C02_wide_exit_is_slot_script']
 SOURCES = vlib.EVENT_SOURCES + vlib.BASE_SOURCES + ['modules/eventx/timer_pool.cpp']
 FLAVOUR = 'asan'
 LIBS = ['-ldl']
@@ -58,7 +62,9 @@ TRUSTED = ['model lean/TboxModel/C02/Model.lean hand-written from common_loop_ti
            'TimerPool cabinet rendered by its contract as repaired (C08_cab_lookup, C08 package): token = serial of the TimerEvent, never reissued; '
            'the deferred deletes of TimerPool (run()/runNext([timer]{delete timer})) are modelled as immediate: between free(token) and the delete '
            'nothing can reach the disabled object',
-           'negative exitLoop waits and exitLoop from a thread other than the loop thread are not driven']
+           'negative exitLoop waits are driven in wide cases (wxslot / wxl <signed w>: the slot on the width-faithful machine alone, Wide.xExitLoop; '
+           'the silent exit callback is served when its record is the heap front and due and the next callback line is not on a record of the same '
+           'deadline); exitLoop from a thread other than the loop thread is not driven']
 ASSUMPTIONS = ['interval >= 1 ms for the property theorems (the property quantifies over d >= 1; C02_pass_endless_counterexample: interval 0 persistent never '
                'leaves the pass; C02_wide_negative_interval / C02_wide_zero_interval state what the code does with d <= 0, tied by wide cases)',
                'a timer object is not destroyed from inside its own callback (TimerPool defers that delete itself)',
@@ -85,7 +91,12 @@ RULE = ('scripts of timer objects (callback bodies = lists of init/enable/disabl
         'reaches the deadline and is run again), state-derived follow-ups (same interval and mode again while enabled, enable twice, re-enable at the '
         'cached deadline, doEvery with interval = elapsed time, cancel of the next / the just-freed token, removal of the due heap front from a '
         'callback), TimerPool with empty callbacks and destruction with pending timers; also non-trivial: the loop left runLoop, a pool destroyed '
-        'with pending timers; both model layers run in lock-step on every case (tag lockstep)')
+        'with pending timers; both model layers run in lock-step on every case (tag lockstep); round 5: last-call-wins histories (3..6 exitLoop '
+        'calls with waits derived from each other and from the deadlines already pending, from deferred functions and callbacks, the loop woken '
+        'after ALL of the deadlines), wide exit cases (exitLoop with negative counts: |w| <= now exits in the next pass, |w| > now never; 0; '
+        'positive boundary counts; mixed with negative / zero / boundary user intervals), cleanup()-then-reuse families (cleanup from outside and '
+        'inside callbacks with pending / due / fired timers, stale cancels, first doAfter / doEvery after it alone in the heap); also non-trivial: '
+        'an exit timer fired in a wide case')
 HARNESS_ENV = None
 
 
@@ -314,6 +325,82 @@ def gen_exit_boundary(rng, L):
     return ops
 
 
+def gen_last_wins_case(rng):
+    """round 5: "only the last exitLoop counts" - 3..6 exitLoop calls (deferred function / callback / outside the run) whose waits are derived
+    from each other and from the deadlines already pending (same deadline as the pending exit timer, one before, one after, the user
+    timer's next deadline), then the loop is woken AFTER all of these deadlines (one late pass) or exactly on the last one"""
+    eng = 'engine ' + rng.choice(['epoll', 'select'])
+    d = rng.choice([3, 5, 7])
+    ops = [eng, 'xslot', 'new -', 'init 1 %d p' % d, 'en 1']
+    now = 0; pend = None; maxdl = 0
+    k = rng.choice([3, 4, 5, 6])
+    cb = []
+    for i in range(k):
+        cands = [1, 2, d, d + 1, 2 * d, 3 * d + 1]
+        if pend is not None and pend > now: cands += [pend - now, max(1, pend - now - 1), pend - now + 1]   # the cached deadline itself, one off
+        w = rng.choice(cands)
+        if i == k - 1 and rng.random() < 0.25: w = 0                 # a last exitLoop(0): stops at once, nothing pending may stop it again
+        r = rng.random()
+        if r < 0.7: ops.append('xl %d' % w)
+        elif r < 0.85 and w > 0: ops.append('xlo %d' % w)
+        else: ops.append('xl %d' % w)
+        pend = now + w if w else None; maxdl = max(maxdl, now + w)
+        if w == 0: pend = None
+        if i < k - 1:
+            a = rng.choice([0, 0, 1, 2]); now += a; ops.append('adv %d' % a)
+            if pend is not None and now >= pend: pend = None
+    if rng.random() < 0.5:
+        ops += ["adv %d" % max(0, maxdl - now + rng.choice([0, 1, d])), "adv 1", "adv %d" % d]     # one late pass over every deadline
+    elif pend is not None:
+        ops += ['adv %d' % max(0, pend - now - 1), 'idle 0', 'adv 1', 'adv %d' % (maxdl + d)]   # one ms before the last deadline, then on it
+    else:
+        ops += ['adv %d' % (maxdl + d), 'adv 1']
+    return ops
+
+
+def gen_wide_exit_case(rng):
+    """round 5 (goal 3, lessons a/g): exitLoop(milliseconds(w)) with ANY signed count through the real code - negative counts with |w| below /
+    equal to / above the clock reading (1000 ms at case start), 0, 1, boundary counts - mixed with user timers of negative / zero / boundary
+    intervals; the loop is re-run after every exit"""
+    eng = 'engine ' + rng.choice(['epoll', 'select'])
+    ops = [eng, 'wxslot', 'wnew', 'wnew']
+    now = 1000
+    ops += ['winit 1 %d %s' % (rng.choice([3, 5, 50, B31 + 1]), rng.choice('op')), 'wen 1']
+    for _ in range(rng.choice([3, 5, 8])):
+        r = rng.random()
+        if r < 0.5:
+            w = rng.choice([-1, -2, -5, -300, -(now - 1), -now, -(now + 1), -(now + 7), -5000, -B31, -B31 - 1, -B32, -B62, 0, 1, 2, 5, B31, B32 + 1])
+            ops.append('wxl %d' % w)
+        elif r < 0.6: ops.append('winit 2 %d o' % rng.choice([-3, 0, 4, -2000])); ops.append('wen 2')
+        elif r < 0.7: ops.append(rng.choice(['wdis 1', 'wen 1', 'wdis 2']))
+        elif r < 0.9:
+            d = rng.choice([0, 1, 2, 5, 50]); now += d; ops.append('adv %d' % d)
+        else:
+            d = rng.choice([0, 1, 5]); now += d; ops.append('idle %d' % d)
+    ops += ['wxl %d' % rng.choice([-1, 3, 0]), 'adv 3', 'adv 1']
+    return ops
+
+
+def gen_cleanup_reuse_case(rng):
+    """round 5 (goal 2): cleanup() with pending / due / already fired timers, from outside and from inside a callback, then the pool is reused:
+    the first doAfter / doEvery is alone in the heap (idle pass: the wait is exactly its interval), stale tokens of before stay dead"""
+    eng = 'engine ' + rng.choice(['epoll', 'select'])
+    d = rng.choice([2, 3, 5, 7]); e = rng.choice([1, 2, 4, 9, B31 + 1])
+    n0 = rng.choice([1, 2, 3, 5])
+    ops = [eng]
+    for i in range(n0):
+        ops.append('%s %d %s' % (rng.choice(['pafter', 'pevery']), rng.choice([1, d, d + 1, 2 * d]), rng.choice(['-', '-', 'c%d' % rng.randrange(n0), 'z', 'z,a%d[]' % d, 'a%d[z]' % d])))
+    ops.append('adv %d' % rng.choice([0, 1, d - 1, d, 2 * d]))
+    ops.append('pcleanup')
+    if rng.random() < 0.5: ops.append('idle 0')                                  # empty heap: the loop may sleep for ever
+    ops += ['pcancel %d' % rng.randrange(n0 + 2)]
+    ops.append('%s %d -' % (rng.choice(['pafter', 'pevery']), e))
+    ops.append('idle 0')                                                         # the wait is bounded by the new timer only
+    ops += ['pcancel %d' % rng.randrange(n0 + 2), 'adv %d' % (e - 1) if e > 1 else 'adv 0', 'adv 1', 'adv %d' % min(e, 20)]
+    ops += ['pafter %d z,a%d[],v%d[]' % (d, d, d), 'adv %d' % d, 'pcancel %d' % (n0 + 8), 'adv %d' % d, 'pcleanup', 'pcleanup', 'adv %d' % (2 * d)]
+    return ops
+
+
 def gen_state_case(rng):
     """lesson (g): follow-up inputs equal to / derived from the state the objects cache - the same interval and mode again while
     enabled, enable() twice, re-enable exactly at the cached deadline, doEvery with an interval equal to the time already elapsed,
@@ -387,6 +474,22 @@ def gen(rng, tier):
     yield ['xslot', 'en 0', 'new e0', 'new q', 'xl', 'xl -3', 'new q5,d0', 'new i0:5:o', 'new n[q1]', 'init 0 5 o', 'del 0', 'xl 5', 'adv 5']   # the slot is not addressable; malformed
     yield ['new -', 'xslot', 'xl 5', 'new q5']                                                   # no slot: bad-op
     yield ['pnull a 5', 'pnull e 5', 'pnull t 5', 'pafter 5 -', 'pevery 2 -', 'pdestroy', 'adv 10', 'pcancel 0', 'pafter 3 -', 'adv 3', 'pnull x 5', 'pnull a 0', 'pdestroy 1']
+    # round 5: negative exit waits (wide cases with the exit-timer slot); last exitLoop wins; cleanup then reuse
+    yield ['wxslot', 'wnew', 'winit 1 50 o', 'wen 1', 'wxl -5', 'adv 1', 'wxl -5000', 'idle 3', 'adv 5', 'wxl 7', 'wxl -1000', 'adv 1', 'wxl -1012', 'adv 60', 'wxl 0', 'adv 1']
+    yield ['engine select', 'wxslot', 'wnew', 'winit 1 -3 o', 'wxl 5', 'wen 1', 'adv 4', 'wxl 2', 'adv 1', 'idle 1', 'wxl -1', 'wxl 0', 'wxl 3', 'adv 3']
+    yield ['wxslot', 'winit 0 5 o', 'wen 0', 'wdel 0', 'wxl', 'wxl x', 'wxl 5 5', 'wnew', 'wxl 4611686018427387905', 'adv 1']      # the slot is not addressable; malformed
+    yield ['wnew', 'wxslot', 'wxl -5', 'adv 1']                                                                                 # no slot: bad-op
+    yield ['engine select', 'wxslot', 'wxl -5000', 'idle 2', 'idle 0', 'wxl -1003', 'adv 0', 'wxl -1002', 'adv 1', 'wxl 0']          # the wrapped exit timer is the ONLY record: wait 0 (the loop spins), never due; |w| = now+1 / now
+    yield ['wxslot', 'wxl 2147483649', 'idle 5', 'idlex 2147483643', 'adv 1', 'wxl 4294967297', 'wxl -4294967297', 'idle 1', 'wxl 1', 'adv 1']
+    yield ['xslot', 'wxl -5', 'adv 1']                                                                                          # a case never mixes plain and wide ops
+    yield ['xslot', 'new -', 'init 1 5 p', 'en 1', 'xl 7', 'adv 5', 'xl 20', 'adv 2', 'xl 3', 'adv 22', 'adv 1', 'adv 30']      # exitDemo of Props.lean: late pass over all three deadlines
+    yield ['pafter 5 -', 'pevery 2 -', 'adv 2', 'pcleanup', 'idle 0', 'pafter 4 -', 'idle 0', 'pcancel 0', 'pcancel 1', 'adv 3', 'adv 1', 'pcancel 2']
+    for _ in range(n // 8):
+        yield gen_last_wins_case(rng)
+    for _ in range(n // 8):
+        yield gen_wide_exit_case(rng)
+    for _ in range(n // 8):
+        yield gen_cleanup_reuse_case(rng)
     for L in BOUNDS[:-1]:
         yield gen_exit_boundary(rng, L)
     for _ in range(n // 5):
@@ -415,7 +518,7 @@ def nontrivial(ops, model_lines):
     tags = ' '.join(l for l in model_lines if l.startswith('B '))
     return 1 if any(t in tags for t in ('tie', 'catchup', 'cb-removed-other', 'cb-armed-other', 'passN', 'cb-doAfter', 'cb-doEvery',
                                         'cb-cancel', 'cb-cleanup', 'cb-new', 'idle-wait', 'idle-clamped', 'w-fire', 'iv~2^31', 'iv~2^32',
-                                        'iv-25..49d', 'iv>2^32', 'loop-exit', 'exit-fired', 'pool-destroy-pending', 'pool-null')) else None
+                                        'iv-25..49d', 'iv>2^32', 'loop-exit', 'exit-fired', 'pool-destroy-pending', 'pool-null', 'w-exit-fired')) else None
 
 
 LEVEL_TEXT = ('Lean 4 theorems over a model of the loop timer core (addTimer/deleteTimer/handleExpiredTimers + TimerEventImpl) and of TimerPool: an '
@@ -428,7 +531,9 @@ LEVEL_TEXT = ('Lean 4 theorems over a model of the loop timer core (addTimer/del
               'width, wait bound for both engines, deleteTimer removes exactly the addressed record, each primitive refines the abstract model and every '
               'whole execution of the width-faithful machine (TimerEventImpl + TimerPool + callback scripts, any conforming heap library) is an '
               'execution of the abstract model with the same callback log (C02_wide_exec_simulates), so never-early / no-skip / order / once / '
-              'never-after-disable hold of the machine at width; the loop exit timer (exitLoop) as an object of the model; tied '
+              'never-after-disable hold of the machine at width; the loop exit timer (exitLoop) as an object of the model: only the last exitLoop call '
+              'counts over every continuation (C02_exit_last_call_wins, C02_exit_zero_final); a TimerPool after cleanup() is a fresh pool '
+              '(C02_pool_cleanup_fresh, C02_pool_reuse_after_cleanup); tied '
               'to the real loop on every run by a trace acceptor replaying the callbacks of the real epoll/select loop (virtual clocks) as model steps')
 LEVEL_NOTE = ('trusted: Lean kernel, hand-written model + trace-acceptor tie (coverage bounded by the generator, measured), that libstdc++ heap algorithms '
               'meet the standard contract, clock and epoll_wait/select interposition, the cabinet contract (proved in C08); sub-millisecond earliness is '
